@@ -1,9 +1,9 @@
 SPECIFICATION Spec
 CONSTANTS
   Systems <- MCSystems
-  Comp <- MCCompX
+  Comp <- MCCompXC
   Rxns <- MCRxns
-  MaxOps = 3
+  MaxOps = 4
 VIEW View
 PROPERTY AlignedUnlessFailed
 PROPERTY FitUsesCurrent
